@@ -2,7 +2,8 @@
 
 (a) metamorphic, real code: a generated recipe (recipes.L2Gen) is *factored* — a prefix of its top-level
     statements moved into 1–2 include files (nested / sibling includes, include lines at top / middle /
-    bottom), prefixes of the fields / friends of its templates (also nested ones and friends) moved into
+    bottom; the same file listed twice; diamonds: two included files including a shared third one that
+    holds statements, or only macros), prefixes of the fields / friends of its templates (also nested ones and friends) moved into
     macros (chains `include: m1, m2`, nested macros, junk fields overridden by later macros / own
     fields, a junk definition of the same macro name in an earlier file) — and compared with the
     *inlined* single-file recipe computed by a small harness-side inliner that implements the property
@@ -545,7 +546,7 @@ def factor_recipe(rng, rc):
     if rng.random() < 0.4:
         plugin_items, extra = add_stateful(fx, stmts)
     n = len(stmts)
-    layout = rng.choice(["single", "one", "one", "nested", "two", "two"])
+    layout = rng.choice(["single", "one", "one", "nested", "two", "two", "twice", "diamond", "diamond", "diamond-macros"])
     cuts = sorted(rng.randint(0, n) for _ in range(2))
     chunks = {}
     if layout == "single":
@@ -557,9 +558,28 @@ def factor_recipe(rng, rc):
     elif layout == "nested":
         chunks = {"b.yml": stmts[: cuts[0]], "a.yml": stmts[cuts[0]: cuts[1]], MAIN: stmts[cuts[1]:]}
         incl = {MAIN: ["a.yml"], "a.yml": ["b.yml"], "b.yml": []}
-    else:
+    elif layout == "two":
         chunks = {"a.yml": stmts[: cuts[0]], "c.yml": stmts[cuts[0]: cuts[1]], MAIN: stmts[cuts[1]:]}
         incl = {MAIN: ["a.yml", "c.yml"], "a.yml": [], "c.yml": []}
+    elif layout == "twice":
+        # the same file listed twice: every include line contributes the file's statements
+        k = max(cuts[1], min(1, n))
+        chunks = {"a.yml": stmts[:k], MAIN: stmts[k:]}
+        incl = {MAIN: ["a.yml", "a.yml"], "a.yml": []}
+    elif layout == "diamond":
+        # two included files that both include a shared third one holding statements
+        k = sorted(rng.randint(0, n) for _ in range(3))
+        k[0] = max(k[0], min(1, n))
+        k[1], k[2] = max(k[1], k[0]), max(k[2], k[0])
+        chunks = {"s.yml": stmts[: k[0]], "a.yml": stmts[k[0]: k[1]], "c.yml": stmts[k[1]: k[2]], MAIN: stmts[k[2]:]}
+        incl = {MAIN: ["a.yml", "c.yml"], "a.yml": ["s.yml"], "c.yml": ["s.yml"], "s.yml": []}
+        if rng.random() < 0.2:
+            incl[MAIN].insert(rng.randint(0, 2), "s.yml")
+            fx.features.add("diamond-plus-direct")
+    else:
+        # diamond whose shared file holds only macros (and possibly options): harmless
+        chunks = {"s.yml": [], "a.yml": stmts[: cuts[0]], "c.yml": stmts[cuts[0]: cuts[1]], MAIN: stmts[cuts[1]:]}
+        incl = {MAIN: ["a.yml", "c.yml"], "a.yml": ["s.yml"], "c.yml": ["s.yml"], "s.yml": []}
     fx.features.add("layout:" + layout)
     names = list(chunks)
     files = {}
@@ -590,7 +610,7 @@ def factor_recipe(rng, rc):
     # macros: any file, any position (expansion happens after all files are read)
     dfs = [x for x in _dfs(incl, MAIN)]
     for m in fx.macros:
-        tgt = rng.choice(names)
+        tgt = "s.yml" if layout == "diamond-macros" else rng.choice(names)
         files[tgt] = insert_at(rng, files[tgt], [m])
         if tgt != MAIN:
             fx.features.add("macro-in-include")
@@ -598,7 +618,9 @@ def factor_recipe(rng, rc):
             # a junk definition of the same name that must lose: earlier in depth-first order
             junk = {"k": "macro", "name": m["name"], "fields": [["f1", ["lit", "LOSER"]], ["zz", ["lit", "LOSER"]]],
                     "friends": [{"object": "J"}]}
-            earlier = [x for x in dfs[: dfs.index(tgt)]]
+            # (a file reached several times is read several times: it is "earlier" only if its last
+            #  reading precedes the first reading of the file that holds the real definition)
+            earlier = sorted({x for x in dfs[: dfs.index(tgt)] if x not in dfs[dfs.index(tgt):]})
             if earlier and rng.random() < 0.7:
                 jt = rng.choice(earlier)
                 files[jt] = insert_at(rng, files[jt], [junk])
@@ -678,6 +700,19 @@ def stateful_files():
     ]}
 
 
+def diamond_files():
+    """Fixed regression input: main includes a.yml and b.yml, both include shared.yml which holds a
+    statement; a.yml is also listed twice.  Every inclusion contributes the statements again (as inlining
+    would): P is created three times and each `reference: p` binds to the P of its own branch."""
+    P = {"object": "P", "nickname": "p", "fields": [["n", ["lit", 1]]]}
+    return {MAIN: [{"k": "include", "name": "a.yml"}, {"k": "include", "name": "b.yml"}, {"k": "include", "name": "a.yml"},
+                   {"k": "stmt", "s": {"object": "M", "fields": [["r", ["ref", "p"]]]}}],
+            "a.yml": [{"k": "include", "name": "shared.yml"}, {"k": "stmt", "s": {"object": "A", "fields": [["r", ["ref", "p"]]]}}],
+            "b.yml": [{"k": "stmt", "s": {"object": "B0"}}, {"k": "include", "name": "shared.yml"},
+                      {"k": "stmt", "s": {"object": "B", "fields": [["r", ["ref", "p"]]]}}],
+            "shared.yml": [{"k": "stmt", "s": P}, {"k": "stmt", "s": {"var": "v1", "value": ["lit", 5]}}]}
+
+
 SIG_D12 = "C14:option-truthiness"
 SIG_D41 = "C14:include-file-cycle:RecursionError"
 SIG_D42 = "C14:macro-cycle-via-nested-template:RecursionError"
@@ -695,6 +730,14 @@ def first_diff(a, b):
 
 def canon_rows(rows):
     return [[t, [[k, v] for k, v in fs]] for t, fs in rows]
+
+
+def observable_options(opts):
+    last = {}
+    for o in opts:
+        last[o["name"]] = o
+    distinct = sorted({json.dumps(o, sort_keys=True) for o in opts})
+    return {"last": last, "distinct": distinct}
 
 
 def check_refactoring(rep, files, reps, feats=(), run_rows=True, extra=None):
@@ -715,7 +758,12 @@ def check_refactoring(rep, files, reps, feats=(), run_rows=True, extra=None):
         return case, pa, inl
     if pa["status"] == "ok":
         for key in ("statements", "options", "version"):
-            if pa[key] != pb[key]:
+            va, vb = pa[key], pb[key]
+            if key == "options":
+                # what merge_options can observe of the declaration list: the distinct declarations (any of
+                # them may fail) and the last one per name (it decides the value); repetitions cannot be seen
+                va, vb = observable_options(va), observable_options(vb)
+            if va != vb:
                 if key == "statements":
                     i, x, y = first_diff(pa[key], pb[key])
                     what = f"statement {i} of the factored recipe parses to {json.dumps(x)[:400]} but its inlining to {json.dumps(y)[:400]}"
@@ -914,6 +962,10 @@ def run_known(rep, findings):
             rep.violation(SIG_D42 if r["status"] == "internal:RecursionError" else "C14:macro-cycle-via-nested-template:" + r["status"],
                           f"macro m reaches itself through a {via} template: {r['status']} escapes (the cycle check restarts at every template)", case, "recipe_error", r["status"])
         _model_one(rep, "c14.parse:macro-cycle-nested", case, files, r)
+    # a file reached by include_file several times (fixed regression input)
+    case, pa, inl = check_refactoring(rep, diamond_files(), 1)
+    rep.case({"texts": case["texts"], "reps": 1}, nontrivial=True)
+    _model_one(rep, "c14.parse:diamond", case, diamond_files(), pa)
     # stateful definitions in a shared macro (fixed regression input)
     case, pa, inl = check_refactoring(rep, stateful_files(), 2)
     rep.case({"texts": case["texts"], "reps": 2}, nontrivial=True)
@@ -1013,7 +1065,8 @@ def run(ctx, rep, findings):
                 break
         files, feats, extra = factor_recipe(rng, rc)
         case, pa, inl = check_refactoring(rep, files, reps, feats, extra=extra)
-        if "junk-override" not in feats and "stateful" not in feats and orig.outcome == "ok":
+        if "junk-override" not in feats and "stateful" not in feats and orig.outcome == "ok" \
+                and not ({"layout:twice", "layout:diamond"} & set(feats)):
             # no overriding involved: the factored recipe must reproduce the rows of the recipe as generated
             fr = real_run(files, reps)
             if fr.outcome != "ok" or canon_rows(fr.rows) != canon_rows(orig.rows):
